@@ -72,15 +72,24 @@ def rule_width(ctx):
                           'self.%s += … has type %s' % ('.'.join(ch), ty))
                 n += 1
     # local accumulators (tx_value)
-    ob = prog.one('<%s as callbacks::Callback>::on_block' % CB)
-    for l, ds in ob.defs().items():
-        for d in ds:
-            if d[0] == 'assign':
-                e = ob.rvalue_expr(d[3])
-                if e[0] == 'bin' and e[1] == 'Add' and mir.contains(e, lambda x: x[0] == 'cyc'):
-                    ty = ob.local_ty(l)
-                    ctx.check('width', 'local-accumulator:%s' % (ob.names.get(l) or 'tmp'), (util.int_width(ty) or 0) >= 64, (ob, d[1]),
-                              'loop-carried accumulator of type %s' % ty)
+    # in every function the callback reaches (an explicit summing loop in a helper is the same reduction as
+    # Iterator::sum there); loop counters of usize width are accumulators too and pass
+    for ob in sorted(reach, key=lambda b: b.path):
+        if ob.kind == 'Closure' and not ob.path.startswith('callbacks::simplestats') and not ob.path.startswith('common::utils'):
+            continue
+        if not (ob.path.startswith('callbacks::simplestats') or ob.path.startswith('<callbacks::simplestats') or ob.path.startswith('common::utils::get_mean')):
+            continue
+        for l, ds in ob.defs().items():
+            for d in ds:
+                if d[0] == 'assign':
+                    e = ob.rvalue_expr(d[3])
+                    if e[0] == 'bin' and e[1] == 'Add' and mir.contains(e, lambda x: x[0] == 'cyc'):
+                        ty = ob.local_ty(l)
+                        if util.int_width(ty) is None and ty != 'f64':
+                            continue
+                        ctx.check('width', 'local-accumulator:%s:%s' % (ob.path.split('::')[-1], ob.names.get(l) or 'tmp'), ty == 'f64' or (util.int_width(ty) or 0) >= 64, (ob, d[1]),
+                                  'loop-carried accumulator of type %s' % ty)
+                        n += 1
 
 
 EXPECT_ON_BLOCK = {
@@ -308,8 +317,8 @@ def rule_mean(ctx):
     ok = False
     if m:
         x = m.group(1)
-        if x == 'a1':
-            ok = True
+        if x in ('a1', 'each(a1)'):
+            ok = True   # Iterator::sum over the slice, or an accumulator over each of its elements
         else:
             m2 = re.match(r'^map\(a1, closure:(.*)\)$', x)
             if m2:
@@ -326,7 +335,9 @@ def rule_mean(ctx):
             if v == 'const<0.0>':
                 ctx.check('mean', 'zero-iff-empty', g == ['is_empty(a1)'], (gm, d[1]), 'returns 0 under %s' % g)
             else:
-                ctx.check('mean', 'division-guarded-nonempty', g == ['!is_empty(a1)'], (gm, d[1]), 'divides under %s' % g)
+                # (the exit test of a summing loop over the same slice is not a condition on the input)
+                g2 = [x for x in g if x != 'next(a1) is None']
+                ctx.check('mean', 'division-guarded-nonempty', g2 == ['!is_empty(a1)'], (gm, d[1]), 'divides under %s' % g)
     # the division happens in floating point (no integer truncation before dividing)
     for i in gm.live:
         for st in gm.blocks[i]['stmts']:
